@@ -32,6 +32,8 @@ def fpi (s : Stack) : List (Tid × TaskSt) × List (Nat × Nat) × Nat × Option
 @[simp] theorem fpi_with_refreshLog (s : Stack) (x : List (Addr × SvcKey × Nat × Nat)) : fpi { s with refreshLog := x } = fpi s := rfl
 @[simp] theorem fpi_with_armLog (s : Stack) (x : List (Cb × Nat × Nat)) : fpi { s with armLog := x } = fpi s := rfl
 @[simp] theorem fpi_with_findMarks (s : Stack) (x : List (Nat × Nat)) : fpi { s with findMarks := x } = fpi s := rfl
+@[simp] theorem fpi_with_ansLog (s : Stack) (x : List (Nat × Addr × Nat × Nat)) : fpi { s with ansLog := x } = fpi s := rfl
+@[simp] theorem fpi_logAnswer (s : Stack) (i : Nat) (a : Addr) (d : Nat) : fpi (s.logAnswer i a d) = fpi s := rfl
 @[simp] theorem fpi_markFind (s : Stack) (n : Nat) : fpi (s.markFind n) = fpi s := rfl
 @[simp] theorem fpi_with_offLog (s : Stack) (x : List (Nat × OEv × Nat)) : fpi { s with offLog := x } = fpi s := rfl
 @[simp] theorem fpi_logOffer (s : Stack) (i : Nat) (e : OEv) : fpi (s.logOffer i e) = fpi s := rfl
